@@ -37,9 +37,24 @@ def load_objects(path):
     return recs
 
 
-def build_objects(recs):
-    b = L.Builder()
+def build_objects(recs, builder=None):
+    b = builder or L.Builder()
     return [b.build(r['d'], r['copy']) for r in recs]
+
+
+def mutate_arrays(recs, builder):
+    """In-place modification of every pooled weight array (x2); returns the records with the array values of
+    the descriptors updated accordingly (identities are untouched, so SetEq must not change)."""
+    for arr in builder.pool.values():
+        arr *= 2
+
+    def patch(d):
+        d = dict(d)
+        if d['id'] != 0:
+            d['q'] = [d['q'][0], [[2 * v[0] // (2 if v[1] % 2 == 0 else 1), v[1] // (2 if v[1] % 2 == 0 else 1)] for v in d['q'][1]]]
+        d['sub'] = [patch(t) for t in d['sub']]
+        return d
+    return [dict(r, d=patch(r['d'])) for r in recs]
 
 
 def obj_events(recs, objs):
@@ -90,7 +105,8 @@ def leaf_dtype(sp):
 def inp_shape(x, sp):
     """Tree shape of an input offered to the space sp (SetSem!ShapeOf conventions): where the target is a
     product space the input is read as a sequence of parts, elsewhere as array data."""
-    if isinstance(sp, odl.ProductSpace) and isinstance(x, (list, tuple, odl.space.pspace.ProductSpaceElement)):
+    if isinstance(sp, odl.ProductSpace) and isinstance(x, (list, tuple, np.ndarray,
+                                                           odl.space.pspace.ProductSpaceElement)):
         out = [-len(x)]
         for k, p in enumerate(x):
             out += inp_shape(p, sp[k] if k < len(sp) else sp[0])
@@ -102,6 +118,10 @@ def inp_shape(x, sp):
 
 def space_shape_of_element(x):
     return L.space_shape(x.space)
+
+
+def _tuples(o):
+    return tuple(_tuples(t) for t in o) if isinstance(o, list) else o
 
 
 def nested_flat(data):
@@ -128,7 +148,7 @@ def element_cases(recs, objs, quick=True):
                 continue
             if ps != isinstance(sp2, odl.ProductSpace):
                 continue
-            if quick and j != i and j != i + 1 and (j % 5) != (i % 5):   # own, copy 2, and a fifth of the others
+            if quick and r2['k'] != r['k'] and (j % 5) != (i % 5):   # own + other copies, and a fifth of the others
                 continue
             x = sp2.element(space_values(sp2, True))
             cases.append((i, 'elem-of-%d' % r2['oid'], x,
@@ -138,6 +158,21 @@ def element_cases(recs, objs, quick=True):
         datas = [('data-own-dtype', vals)]
         if not ps:
             datas.append(('data-list', np.asarray(vals).tolist()))
+            datas.append(('data-tuple', _tuples(np.asarray(vals).tolist())))
+            big = np.zeros(tuple(2 * t for t in sp.shape), dtype=dt)
+            view = big[tuple(slice(None, None, 2) for _ in sp.shape)]
+            view[...] = vals
+            datas.append(('data-strided-view', view))
+            ro = np.array(vals)
+            ro.setflags(write=False)
+            datas.append(('data-readonly', ro))
+            if sp.size != 1:          # a 0-d input to a one-entry space is promoted (ndmin): not an incompatible shape
+                datas.append(('data-0d-scalar', np.array(1.0)))
+            if len(sp.shape) == 1 and np.dtype(dt).kind != 'c':
+                datas.append(('data-range', range(1, sp.size + 1)))
+            if len(sp.shape) == 2:
+                datas.append(('data-F-order', np.asfortranarray(vals)))
+                datas.append(('data-transposed-view', np.ascontiguousarray(np.asarray(vals).T).T))
             if np.dtype(dt).kind in 'fc':
                 datas.append(('data-int', np.arange(1, sp.size + 1).reshape(sp.shape)))
                 datas.append(('data-f32', np.arange(1, sp.size + 1, dtype='float32').reshape(sp.shape)))
@@ -150,6 +185,9 @@ def element_cases(recs, objs, quick=True):
                 datas.append(('shape-transposed', np.ascontiguousarray(np.asarray(vals).T)))
         else:
             datas.append(('parts-elements', [s.element(v) for s, v in zip(sp.spaces, vals)]))
+            datas.append(('parts-tuple', tuple(vals)))
+            if sp.is_power_space and not isinstance(sp[0], odl.ProductSpace):
+                datas.append(('parts-as-2d-array', np.array([np.asarray(v) for v in vals])))
             datas.append(('length-shorter', vals[:-1]))
             datas.append(('length-longer', list(vals) + [vals[0]]))
         for label, data in datas:
@@ -177,47 +215,46 @@ def pyidx(idx):
     return z[0] if len(z) == 1 else z
 
 
+def derived_call(sp, op, dt, idx, form):
+    """The Python spelling of an exported derived-space case [op, dt, idx, form] (SetSem!DerivedCases)."""
+    if op == 'astype':
+        return sp.astype(L.DT[dt])
+    if op == 'real_space':
+        return sp.real_space
+    if op == 'complex_space':
+        return sp.complex_space
+    z = [t - 1 for t in idx]
+    if op in ('byaxis', 'byaxis_in'):
+        acc = sp.byaxis if op == 'byaxis' else sp.byaxis_in
+        if form == 'int-or-list':
+            return acc[z[0] if len(z) == 1 else z]
+        if form == 'negative-int':
+            return acc[z[0] - len(sp.shape)]
+        if form == 'slice':
+            return acc[slice(z[0], z[-1] + 1) if z[0] else slice(None)]
+    if op == 'getitem-int':
+        return sp[z[0] - len(sp)] if form == 'negative-int' else sp[z[0]]
+    if op == 'getitem-list':
+        if form == 'slice':
+            return sp[:]
+        if form == 'slice-from-1':
+            return sp[1:]
+        if form == 'slice-to-1':
+            return sp[:1]
+        if form == 'stepped-slice':
+            return sp[::2]
+        if form == 'list':
+            return sp[z]
+    raise ValueError('unknown derived case %r' % ((op, dt, idx, form),))
+
+
 def derived_cases(recs, objs):
+    """(object index, op, dt, idx, form, thunk) for every case exported by TLC with the object."""
     cases = []
     for i, (r, sp) in enumerate(zip(recs, objs)):
-        d = r['d']
-        if not L.is_space(d) or r['copy'] != 1:
-            continue
-        dtk = np.dtype(leaf_dtype(sp)).kind
-        targets = ['f32', 'f64', 'c64', 'c128', 'i64']
-        for t in targets:
-            cases.append((i, 'astype', t, [], 'call', lambda s, t=t: s.astype(L.DT[t])))
-        if dtk in 'fc':
-            base = L.space_dtype(sp)
-            real = {'c64': 'f32', 'c128': 'f64'}.get(base, base)
-            cplx = {'f32': 'c64', 'f64': 'c128'}.get(base, base)
-            cases.append((i, 'real_space', real, [], 'property', lambda s: s.real_space))
-            cases.append((i, 'complex_space', cplx, [], 'property', lambda s: s.complex_space))
-        if d['cls'] == 'Tensor':
-            nd = len(sp.shape)
-            idxs = [[1]] if nd == 1 else [[1], [2], [1, 2], [2, 1], [1, 1]]
-            for idx in idxs:
-                cases.append((i, 'byaxis', '', idx, 'int-or-list', lambda s, idx=idx: s.byaxis[pyidx(idx)]))
-            if nd == 2:
-                cases.append((i, 'byaxis', '', [1, 2], 'slice', lambda s: s.byaxis[:]))
-                cases.append((i, 'byaxis', '', [2], 'slice', lambda s: s.byaxis[1:]))
-        if d['cls'] == 'Discr':
-            nd = len(sp.shape)
-            idxs = [[1]] if nd == 1 else [[1], [2], [1, 2], [2, 1]]
-            for idx in idxs:
-                cases.append((i, 'byaxis_in', '', idx, 'int-or-list', lambda s, idx=idx: s.byaxis_in[pyidx(idx)]))
-            if nd == 2:
-                cases.append((i, 'byaxis_in', '', [2], 'slice', lambda s: s.byaxis_in[1:]))
-        if d['cls'] == 'PSpace':
-            n = len(sp)
-            for k in range(1, n + 1):
-                cases.append((i, 'getitem-int', '', [k], 'int', lambda s, k=k: s[k - 1]))
-            cases.append((i, 'getitem-int', '', [n], 'negative-int', lambda s: s[-1]))
-            cases.append((i, 'getitem-list', '', list(range(1, n + 1)), 'slice', lambda s: s[:]))
-            cases.append((i, 'getitem-list', '', list(range(2, n + 1)), 'slice-from-1', lambda s: s[1:]))
-            cases.append((i, 'getitem-list', '', [1], 'slice-to-1', lambda s: s[:1]))
-            cases.append((i, 'getitem-list', '', [n, 1], 'list', lambda s, n=n: s[[n - 1, 0]]))
-            cases.append((i, 'getitem-list', '', list(range(1, n + 1, 2)), 'stepped-slice', lambda s: s[::2]))
+        for c in sorted(r.get('cases', []), key=lambda c: (c['op'], c['dt'], c['idx'], c['form'])):
+            cases.append((i, c['op'], c['dt'], list(c['idx']), c['form'],
+                          lambda s, c=c: derived_call(s, c['op'], c['dt'], list(c['idx']), c['form'])))
     return cases
 
 
@@ -375,15 +412,16 @@ def run(ctx):
 
     # ---- 2. the universe in real ODL ----
     recs = load_objects(out)
+    builder = L.Builder()
     try:
-        objs = build_objects(recs)
+        objs = build_objects(recs, builder)
     except Exception as e:
         raise MachineryError('cannot instantiate the universe: %s: %s' % (type(e).__name__, e))
     events, hashes = obj_events(recs, objs)
     n = len(recs)
     ctx.count(None, False, n=n * n)
-    for k1 in range(1, n // 2 + 1):
-        for k2 in range(k1 + 1, n // 2 + 1):
+    for k1 in range(1, n // 3 + 1):
+        for k2 in range(k1 + 1, n // 3 + 1):
             ctx.count([k1, k2], True, n=0)
     meta = {}                       # trace line -> python-side detail
     extra_events = []
@@ -397,7 +435,8 @@ def run(ctx):
     for i, op, dt, idx, form, fn in derived_cases(recs, objs):
         outp, err = run_derived(objs[i], fn)
         eid += 1
-        extra_events.append({'ev': 'derived', 'id': eid, 'op': op, 'spc': recs[i]['d'], 'dt': dt, 'idx': idx, 'out': outp})
+        extra_events.append({'ev': 'derived', 'id': eid, 'op': op, 'spc': recs[i]['d'], 'dt': dt, 'idx': idx, 'form': form,
+                             'out': outp})
         meta[eid] = {'kind': 'derived', 'oid': recs[i]['oid'], 'op': op, 'dt': dt, 'idx': idx, 'form': form, 'err': err}
         ctx.count(['derived', recs[i]['k'], op, dt, idx], True)
     nidx = 0
@@ -414,12 +453,20 @@ def run(ctx):
             meta[eid] = {'kind': 'index', 'oid': r['oid'], 'idx': label}
             ctx.count(['index', r['k'], label], label not in (':', '...'))
 
+    # the same objects AFTER all of the above (cached real / complex spaces, lazily computed attributes) and after
+    # an in-place modification of every wrapped weight array: the laws and layer A must still hold
+    recs2 = mutate_arrays(recs, builder)
+    events2, _ = obj_events(recs2, objs)
+    ctx.count(None, False, n=n * n)
+
     # ---- 3. TLC validates ----
     p1 = os.path.join(work, 'trace_objects.ndjson')
-    with open(p1, 'w') as f:
-        for e in events:
-            f.write(json.dumps(e) + '\n')
-    files = [p1]
+    p2 = os.path.join(work, 'trace_objects_after.ndjson')
+    for p, evs in ((p1, events), (p2, events2)):
+        with open(p, 'w') as f:
+            for e in evs:
+                f.write(json.dumps(e) + '\n')
+    files = [p1, p2]
     chunk = 1500
     for ci in range(0, len(extra_events), chunk):
         p = os.path.join(work, 'trace_cases_%d.ndjson' % (ci // chunk))
@@ -445,7 +492,7 @@ def run(ctx):
     nfail = 0
     for p, res in vres:
         ctx.add_tlc('trace-' + os.path.basename(p), res)
-        is_obj = p == p1
+        is_obj = p in (p1, p2)
         for line in res.output.splitlines():
             if line.startswith('"NOTE '):
                 notes += json.loads(json.loads(line)[5:])['notes']
@@ -463,7 +510,9 @@ def run(ctx):
                             sig = {'clause': clause, 'feature': feat}
                         else:
                             sig = {'clause': clause, 'feature': '-', 'cls': ri['d']['cls'], 'cls2': rj['d']['cls']}
-                        detail = {'stage': 'objects', 'clause': clause,
+                        if p == p2:
+                            sig['when'] = 'after-mutation-and-use'
+                        detail = {'stage': 'objects', 'clause': clause, 'after_mutation': p == p2,
                                   'a': {'oid': ri['oid'], 'copy': ri['copy'], 'd': ri['d']},
                                   'b': {'oid': rj['oid'], 'copy': rj['copy'], 'd': rj['d']}}
                         if b['k']:
@@ -476,13 +525,16 @@ def run(ctx):
                         sig = case_signature(clause, ev)
                         report(sig, {'stage': m['kind'], 'clause': clause, 'event': ev, 'meta': m})
     for d in drift:
-        ctx.drift_note('layer C (EqHashImpl) vs real code: %s objects %s' % (d[0], d[1:]))
+        if d[0].startswith('derived') and 0 < d[1] <= len(extra_events):
+            ev_ = extra_events[d[1] - 1]
+            d = [d[0], ev_.get('op'), ev_.get('idx'), ev_.get('form'), dumps(ev_['spc'])[:160], dumps(ev_['out'])[:200]]
+        ctx.drift_note('layer C (EqHashImpl / DerivedSpaceImpl) vs real code: %s %s' % (d[0], d[1:]))
     ctx.traces += len(events) + len(extra_events)
     raised = sorted({recs[nn[1] - 1]['d']['cls'] for nn in notes})
     ctx.extra['hash_raises_classes'] = raised
     ctx.extra['hash_raises_objects'] = len(notes)
     ctx.extra['objects'] = n
-    ctx.extra['descriptors'] = n // 2
+    ctx.extra['descriptors'] = n // 3
     ctx.extra['ordered_pairs_observed'] = n * n
     ctx.extra['element_cases'] = sum(1 for m in meta.values() if m['kind'] == 'element')
     ctx.extra['derived_space_cases'] = sum(1 for m in meta.values() if m['kind'] == 'derived')
@@ -538,13 +590,11 @@ def replay(body):
     sp = b.build(ev['spc'], 1)
     print('space =', L.safe_repr(sp, 200))
     if d['stage'] == 'derived':
-        for i, op, dt, idx, form, fn in derived_cases(recs, [sp]):
-            if (op, dt, idx, form) == (m['op'], m['dt'], m['idx'], m.get('form', form)):
-                outp, err = run_derived(sp, fn)
-                print(op, dt, idx, '->', dumps(outp), err)
-                bad = outp == ev['out']
-                print('REPRODUCED' if bad else 'NOT-REPRODUCED')
-                return 1 if bad else 0
+        outp, err = run_derived(sp, lambda x: derived_call(x, m['op'], m['dt'], m['idx'], m['form']))
+        print(m['op'], m['dt'], m['idx'], m['form'], '->', dumps(outp), err)
+        bad = outp == ev['out']
+        print('REPRODUCED' if bad else 'NOT-REPRODUCED')
+        return 1 if bad else 0
     if d['stage'] == 'index':
         for label, idx in index_exprs(sp):
             if label == m['idx']:
